@@ -16,12 +16,12 @@ import (
 )
 
 type SolveResult struct {
-	Status  string  `json:"status"` // unsat | sat | unknown | timeout | error
-	Solver  string  `json:"solver"`
-	Seconds float64 `json:"seconds"`
-	Model   string  `json:"model,omitempty"`
-	Detail  string  `json:"detail,omitempty"`
-	Cached  bool    `json:"cached,omitempty"`
+	Status  string   `json:"status"` // unsat | sat | unknown | timeout | error
+	Solver  string   `json:"solver"`
+	Seconds float64  `json:"seconds"`
+	Model   string   `json:"model,omitempty"`
+	Detail  string   `json:"detail,omitempty"`
+	Cached  bool     `json:"cached,omitempty"`
 	Tried   []string `json:"tried,omitempty"`
 }
 
